@@ -31,6 +31,7 @@ EXPLANATION = (
     "(OVERWRITE) the durable store's publish step displaces an existing record; "
     "(OBJECTIVE) the objective a wrapper stores depends on the same constructor "
     "parameters its sub-optimizer folds into its own. "
+    'Round 7: (FPCOV labelled-sizes) sizes enter the fingerprint as (label, size) pairs. '
 )
 ASSUMPTIONS = (
     "hashlib digests are collision-free for the purpose of the property",
